@@ -19,3 +19,31 @@ class MatchStub:
 
     def groups(self):
         return self._groups[1:]
+
+
+class Recorder:
+    """Stands for a container whose mutators are only recorded (find cache, set of searched directories)."""
+    def __init__(self):
+        self.calls = []
+
+    def add(self, *args):
+        self.calls.append(args)
+
+    def update(self, *args):
+        self.calls.append(args)
+
+
+class ItemsStub:
+    def __init__(self, items):
+        self._items = items
+
+    def items(self):
+        return self._items
+
+
+class StringStub:
+    def __init__(self, s):
+        self._s = s
+
+    def string(self, *args):
+        return self._s
